@@ -28,6 +28,8 @@ type c14Case struct {
 	// an incremental history search started and left earlier in the same call (the buffer is
 	// emptied again before the text is typed)
 	Searched string   `json:"searched,omitempty"` // "" | abort | accept
+	// a list is displayed without a selected candidate and text is typed under it before the menu keys
+	ListFirst bool `json:"list_first,omitempty"`
 	Text2    string   `json:"text2,omitempty"`
 	Keys2    []string `json:"keys2,omitempty"`
 }
@@ -113,6 +115,38 @@ func c14Gen(r *rand.Rand, tier string, idx int) any {
 	for i := 0; i < nk; i++ {
 		c.Keys = append(c.Keys, pick(r, menuKeys))
 	}
+	if r.Intn(5) == 0 {
+		// a list displayed without a selected candidate (possible-completions, or a first Tab
+		// with menu-complete-display-prefix), then text typed under it that goes on towards an
+		// offered value, then the menu keys: the word being completed is the one of the line as
+		// it is when the completion key arrives, not as it was when the list was made
+		var lead []string
+		if c.Mode == "emacs" && r.Intn(2) == 0 {
+			lead = append(lead, pick(r, []string{"list", "list-eq"}))
+		} else {
+			c.Inputrc += "set menu-complete-display-prefix on\n"
+			lead = append(lead, "tab")
+		}
+		ext := ""
+		for _, v := range c.Values {
+			if strings.HasPrefix(v, word) && len(v) > len(word) {
+				ext = v[len(word):]
+				break
+			}
+		}
+		if ext == "" {
+			ext = "zq"
+		}
+		er := []rune(ext)
+		for i, n := 0, 1+r.Intn(2); i < n && i < len(er); i++ {
+			lead = append(lead, "lit:"+string(er[i]))
+		}
+		if r.Intn(4) == 0 {
+			lead = append(lead, "lit:\x7f") // and a character deleted again
+		}
+		c.Keys = append(lead, c.Keys...)
+		c.ListFirst = true
+	}
 	if r.Intn(3) == 0 {
 		// a second round on the same shell: the first one ends by typing a character
 		c.Keys = append(c.Keys, pick(r, []string{"type", "space"}))
@@ -154,7 +188,7 @@ func c14Completer(c *c14Case) func([]rune, int) readline.Completions {
 }
 
 var c14KeyBytes = map[string]string{"tab": "\t", "backtab": "\x1b[Z", "down": "\x1b[B", "up": "\x1b[A", "left": "\x1b[D", "right": "\x1b[C", "ctrl-n": "\x0e", "ctrl-p": "\x10",
-	"search": "\x06", "accept-and": "\x00", "interrupt": "\x03", "type": "z", "space": " ", "ret": "\r"}
+	"search": "\x06", "accept-and": "\x00", "list": "\x1b?", "list-eq": "\x1b=", "interrupt": "\x03", "type": "z", "space": " ", "ret": "\r"}
 
 func c14Run(env *fw.Env, raw json.RawMessage) fw.Outcome {
 	var c c14Case
@@ -182,6 +216,10 @@ func c14Run(env *fw.Env, raw json.RawMessage) fw.Outcome {
 	}
 	first := len(plan)
 	for _, k := range c.Keys {
+		if strings.HasPrefix(k, "lit:") {
+			plan = append(plan, sess.Step{W: k[4:], Tag: "lit"})
+			continue
+		}
 		plan = append(plan, sess.Step{W: c14KeyBytes[k], Tag: k})
 	}
 	if c.Text2 != "" {
@@ -219,6 +257,12 @@ func c14Run(env *fw.Env, raw json.RawMessage) fw.Outcome {
 		w, ok := after[i]
 		if !ok {
 			// the call ended at this key
+			if c.ListFirst && prev.Line == anchor.Line && plan[i].Tag == "interrupt" {
+				// a list is on screen but no candidate is selected: whether that is "an active
+				// completion menu" is not said; C-c ending the call there is not judged
+				o.Add("interrupts_under_a_list_without_a_selected_candidate_not_judged", 1)
+				break
+			}
 			if plan[i].Tag == "interrupt" && (prev.Local == "menu-select" || prev.Local == "isearch") {
 				o.Viol("interrupt-in-menu-ended-the-call", ctx+fmt.Sprintf(" key %d; returned=%v err=%q", i-first, res.Returned, res.Err))
 			}
@@ -370,6 +414,9 @@ func c14Run(env *fw.Env, raw json.RawMessage) fw.Outcome {
 			}
 		}
 		o.O.Trace = tr
+	}
+	if c.ListFirst {
+		o.Add("cases_with_text_typed_under_a_displayed_list", 1)
 	}
 	o.O.Sample = map[string]any{"mode": c.Mode, "L0": c.L0, "back": c.Back, "values": c.Values, "keys": c.Keys}
 	return o.O
